@@ -597,7 +597,7 @@ def make_location(loc):
 
 def make_feature(feat):
     key, locs, qual = feat
-    return B.Feature(key, [make_location(l) for l in locs], OrderedDict(qual) if False else dict(qual))
+    return B.Feature(key, [make_location(l) for l in locs], dict(qual))
 
 
 def norm_location(loc):
@@ -1311,7 +1311,7 @@ class MapHarness:
                 B.fastq.set_sequence(f, B.Nuc(s), given, h)
                 model[h.strip()] = (s, given, ref)
             self.changed = True
-        g = self.check(f, op)
+        self.check(f, op)
         return f
 
     def empty_declined(self, f, h, v):
